@@ -1,4 +1,5 @@
 From Coq Require Import ZArith Extraction ExtrOcamlBasic.
-From CyVerif Require Import Lib.CInt Model.M_CMath Model.M_Shadow.
+From CyVerif Require Import Lib.CInt Model.M_CMath Model.M_Shadow Model.M_DivNode.
 Extraction "../ocaml/gen/m_cmath.ml" ex_keep div_int mod_int cdiv_c cmod_c div_node mod_node
-  div_int_no_overflow mod_int_no_overflow sh_cdiv sh_cmod wrap in_rangeb.
+  div_int_no_overflow mod_int_no_overflow sh_cdiv sh_cmod wrap in_rangeb
+  decisions div_stmt mod_stmt divmod_q divmod_r.
